@@ -102,6 +102,10 @@ def steps_for(spelling, kinds, leaf, segs, missing_kind):
         return nat
     if spelling == 'mixed':
         return P[:-1] + [nat[-1]]
+    if spelling == 'tflip':     # T spelling whose LAST step uses the other access kind (T.attr on a mapping / sequence, T[key] on an object)
+        op, arg = nat[-1]
+        flipped = ('.', arg) if op == '[' else ('[', arg)
+        return nat[:-1] + [flipped]
     raise ValueError(spelling)
 
 
@@ -111,6 +115,8 @@ def mk_path(spelling, steps):
     if spelling == 'path':
         return Path(*[a for _, a in steps])
     t = S['v'] if spelling == 'sroot' else T
+    if spelling == 'tflip' and any(op == '.' and not isinstance(a, str) for op, a in steps):
+        raise ValueError('not spellable')
     if spelling == 'mixed':
         parts = []
         for op, arg in steps:
@@ -226,8 +232,8 @@ def run_case(case):
     return R(None, oc, nontrivial=True, steps=len(steps), tags={spelling, vname, str(mname), form} | set(kinds))
 
 
-EXTRAS = [['n'], ['k'], ['s'], ['0'], ['1'], ['5'], ['x'], ['ro'], ['n', 'm'], ['n', '0'], ['5', 'n'], ['zz', 'k'], ['n', 'm', 'o'], ['n', '0', 'p']]
-SPELLINGS = ['text', 'path', 'tnat', 'mixed', 'sroot']
+EXTRAS = [['n'], ['k'], ['s'], ['0'], ['1'], ['-2'], ['5'], ['x'], ['ro'], ['n', 'm'], ['n', '0'], ['5', 'n'], ['zz', 'k'], ['n', 'm', 'o'], ['n', '0', 'p']]
+SPELLINGS = ['text', 'path', 'tnat', 'mixed', 'sroot', 'tflip']
 MISSING = [None, 'dict', 'list', 'obj', 'count', 'countobj', 'raise1', 'raise2']
 VALUES = ['lit', 'opaque', 'spec', 'list', 'cyc']
 
